@@ -311,7 +311,7 @@ def run_check(prop: str, tier: str, seed: int) -> int:
     if not samples:
         samples = [{"note": "no non-trivial case generated"}]
     ev = {
-        "property_id": prop, "tier": tier, "seed": seed, "level": "exploration",
+        "property_id": prop, "tier": tier, "seed": seed, "level": getattr(mod, "LEVEL", "exploration"),
         "coverage": {
             "evaluations": engine_runs, "cases": cases, "distinct_nontrivial": len(nontriv), "rule": mod.RULE,
             "samples": samples, "labels": dict(sorted(labels.items())), "shards": n_shards,
